@@ -42,6 +42,10 @@ type scenario struct {
 	Port  int    `json:"port"`
 	Mode  string `json:"mode"`  // dial | accept
 	Digis int    `json:"digis"` // dial only
+	// CancelCtx (dial only): the dial is made with a cancellable context which is cancelled as soon
+	// as DialContext has returned (the "ctx, cancel := WithTimeout(..); defer cancel()" idiom of a dial
+	// helper): a context that ends after a successful dial must not touch the connection.
+	CancelCtx bool `json:"cancel_ctx,omitempty"`
 
 	MaxFrame int  `json:"maxframe"`
 	TTLMax   int  `json:"ttl"`
@@ -527,8 +531,18 @@ func (e *env) connect() bool {
 		digis := digiCalls[:sc.Digis]
 		var c net.Conn
 		var err error
-		if !e.call("DialContext", func() { c, err = e.port.DialContext(context.Background(), remoteCall, digis...) }) {
+		ctx, cancel := context.Background(), context.CancelFunc(func() {})
+		if sc.CancelCtx {
+			ctx, cancel = context.WithTimeout(ctx, time.Hour)
+		}
+		ok := e.call("DialContext", func() { c, err = e.port.DialContext(ctx, remoteCall, digis...) })
+		cancel()
+		if !ok {
 			return false
+		}
+		if sc.CancelCtx {
+			e.count("dial_context_cancelled_after_return", 1)
+			time.Sleep(5 * time.Millisecond) // let anything still hooked to the context run before the session proceeds
 		}
 		if e.nViol() > 0 {
 			return false
